@@ -3,6 +3,8 @@ import Hive.Proofs.EventsNotifierRace
 import Hive.Proofs.EventsPromise
 import Hive.Proofs.EventsMax
 import Hive.Proofs.EventsIter
+import Hive.Proofs.Events
+import Hive.Proofs.EventsLink
 import Hive.Spec.Events
 /-!
 # C15 — events, promises and notifiers deliver exactly the right calls
@@ -12,6 +14,236 @@ runtime/valuenotifier after the two `fix:` commits, ds/orderedmap's `ForEach`).
 -/
 namespace Hive.C15
 open Hive.Conc
+
+/-! ## `Trigger` over sequential histories -/
+section events
+open Hive.Events
+
+/-- The `Hook` call that returned handle `h` attached a hook to event `e` and no `Unhook` of `h`
+follows it in `pre`. -/
+def AttachedBefore (pre : List Op) (e h : Nat) : Prop :=
+  ∃ p1 m b p2, pre = p1 ++ .hook e m b :: p2 ∧ (step (final init p1) (.hook e m b)).2 = .hk h ∧
+    ∀ op ∈ p2, op ≠ .unhook h
+
+/-- The event's own limit lets the next Trigger through. -/
+def EventPasses (s : St) (e : Nat) : Prop := ∃ ev, s.evs[e]? = some ev ∧ exceeds ev.max (ev.count + 1) = false
+
+/-- The hook's own limit lets the next invocation through. -/
+def HookBudget (s : St) (h : Nat) : Prop := ∃ hk, s.hooks[h]? = some hk ∧ exceeds hk.max (hk.count + 1) = false
+
+theorem callOf_some {e a : Nat} {hk : Hook} {c : Call} (h : callOf e a hk = some c) :
+    hk.ev = e ∧ hk.attached = true ∧ exceeds hk.max (hk.count + 1) = false ∧ c = ⟨hk.handle, a, hk.pooled⟩ := by
+  unfold callOf at h
+  by_cases h1 : (hk.ev != e || !hk.attached) = true
+  · simp [h1] at h
+  · by_cases h2 : exceeds hk.max (hk.count + 1) = true
+    · simp [h1, h2] at h
+    · simp only [h1, h2, Bool.false_eq_true, if_false, Option.some.injEq] at h
+      simp only [Bool.or_eq_true, bne_iff_ne, ne_eq, Bool.not_eq_true', not_or, Decidable.not_not,
+        Bool.not_eq_false] at h1
+      exact ⟨h1.1, h1.2, by simpa using h2, h.symm⟩
+
+theorem callOf_of {e a : Nat} {hk : Hook} (h1 : hk.ev = e) (h2 : hk.attached = true)
+    (h3 : exceeds hk.max (hk.count + 1) = false) : callOf e a hk = some ⟨hk.handle, a, hk.pooled⟩ := by
+  simp [callOf, h1, h2, h3]
+
+theorem calls_sorted (e a : Nat) (l : List Hook) (hh : ∀ (k : Nat) (hk : Hook), l[k]? = some hk → hk.handle = k) :
+    ((l.flatMap (fun h => (callOf e a h).toList)).map (·.handle)).Pairwise (· < ·) ∧
+    ∀ c ∈ l.flatMap (fun h => (callOf e a h).toList), c.handle < l.length := by
+  induction l using snoc_induction with
+  | h0 => simp
+  | hs l x ih =>
+    have hpre : ∀ (k : Nat) (hk : Hook), l[k]? = some hk → hk.handle = k := by
+      intro k hk h
+      apply hh k hk
+      rw [List.getElem?_append_left (getElem?_lt h)]; exact h
+    have hx : x.handle = l.length := hh l.length x (by simp)
+    obtain ⟨ih1, ih2⟩ := ih hpre
+    simp only [List.flatMap_append, List.flatMap_cons, List.flatMap_nil, List.append_nil, List.map_append,
+      List.length_append, List.length_singleton]
+    constructor
+    · rw [List.pairwise_append]
+      refine ⟨ih1, ?_, ?_⟩
+      · cases hc : callOf e a x <;> simp
+      · intro p hp q hq
+        simp only [List.mem_map] at hp hq
+        obtain ⟨c, hc, rfl⟩ := hp
+        obtain ⟨d, hd, rfl⟩ := hq
+        have hd' : callOf e a x = some d := by simpa using hd
+        rw [(callOf_some hd').2.2.2]
+        have := ih2 c hc
+        simp only; omega
+    · intro c hc
+      simp only [List.mem_append] at hc
+      rcases hc with hc | hc
+      · have := ih2 c hc; omega
+      · have hd' : callOf e a x = some c := by simpa using hc
+        rw [(callOf_some hd').2.2.2]; simp only; omega
+
+/-- **C15, Trigger (sequential histories of New/Hook/Unhook/Trigger with any limits and pooled
+hooks).**  For the `Trigger(e, a)` issued after history `pre`: its invocations are in strictly
+increasing handle order (= attachment order, no hook twice), all carry the argument `a`, and hook
+`h` is invoked **iff** it was attached to `e` by a `Hook` call in `pre`, was not unhooked afterwards,
+and neither the event's nor the hook's own trigger limit is used up. -/
+theorem C15_trigger_exactly_once (pre : List Op) (e a : Nat) (hnl : noLink pre)
+    (he : e < (final init pre).evs.length) :
+    ∃ cs, (step (final init pre) (.trigger e a)).2 = .calls cs ∧
+      (cs.map (·.handle)).Pairwise (· < ·) ∧ (∀ c ∈ cs, c.arg = a) ∧
+      ∀ h, (∃ c ∈ cs, c.handle = h) ↔
+        (EventPasses (final init pre) e ∧ AttachedBefore pre e h ∧ HookBudget (final init pre) h) := by
+  have hinv := hinv_of_noLink pre hnl
+  obtain ⟨hnli, htr, hor⟩ := hinv
+  generalize hs : final init pre = s at he hnli htr hor
+  obtain ⟨ev, hev⟩ : ∃ x, s.evs[e]? = some x := ⟨s.evs[e], List.getElem?_eq_getElem he⟩
+  obtain ⟨_, _, t3⟩ := trig_nolink s.evs.length s e a hnli.nolinks ev hev
+  refine ⟨(trig (s.evs.length + 1) s e a).2, by simp [step, he], ?_⟩
+  generalize trig (s.evs.length + 1) s e a = r at t3
+  by_cases hx : exceeds ev.max (ev.count + 1) = true
+  · simp only [hx, if_true] at t3
+    rw [t3.2.2]
+    refine ⟨by simp, by simp, ?_⟩
+    intro h
+    constructor
+    · intro ⟨c, hc, _⟩; cases hc
+    · intro ⟨⟨ev', hev', hp⟩, _⟩
+      rw [hev] at hev'; cases hev'; rw [hx] at hp; cases hp
+  · simp only [hx, Bool.false_eq_true, if_false] at t3
+    rw [t3.2.2]
+    have hmem : ∀ c, c ∈ s.hooks.flatMap (fun h => (callOf e a h).toList) ↔
+        ∃ (k : Nat) (hk : Hook), s.hooks[k]? = some hk ∧ callOf e a hk = some c := by
+      intro c
+      simp only [List.mem_flatMap, Option.mem_toList]
+      constructor
+      · intro ⟨hk, hm, hc⟩
+        obtain ⟨k, hk'⟩ := List.mem_iff_getElem?.mp hm
+        exact ⟨k, hk, hk', hc⟩
+      · intro ⟨k, hk, hk', hc⟩
+        exact ⟨hk, List.mem_of_getElem? hk', hc⟩
+    refine ⟨(calls_sorted e a s.hooks hnli.handle).1, ?_, ?_⟩
+    · intro c hc
+      obtain ⟨k, hk, _, hco⟩ := (hmem c).mp hc
+      rw [(callOf_some hco).2.2.2]
+    · intro h
+      constructor
+      · intro ⟨c, hc, hch⟩
+        obtain ⟨k, hk, hkk, hco⟩ := (hmem c).mp hc
+        obtain ⟨c1, c2, c3, c4⟩ := callOf_some hco
+        have hkh : k = h := by rw [← hch, c4]; exact (hnli.handle k hk hkk).symm
+        subst hkh
+        refine ⟨⟨ev, hev, by simpa using hx⟩, ?_, ⟨hk, hkk, c3⟩⟩
+        obtain ⟨p1, p2, hdec, hout⟩ := hor k hk hkk
+        obtain ⟨hk2, hhk2, _, _, _, hiff⟩ := htr p1 hk.ev hk.max hk.pooled p2 k hdec hout
+        rw [hkk] at hhk2; cases hhk2
+        exact ⟨p1, hk.max, hk.pooled, p2, by rw [← c1]; exact hdec, by rw [← c1]; exact hout, (hiff.mp c2).1⟩
+      · intro ⟨_, ⟨p1, m, b, p2, hdec, hout, hno⟩, ⟨hk, hkk, hb⟩⟩
+        obtain ⟨hk2, hhk2, h1, _, _, hiff⟩ := htr p1 e m b p2 h hdec hout
+        rw [hkk] at hhk2; cases hhk2
+        have hnex : ¬ exceeded hk := by
+          intro hex
+          have : exceeds hk.max (hk.count + 1) = true := by
+            simp only [exceeds, Bool.and_eq_true, decide_eq_true_eq, bne_iff_ne, ne_eq]
+            exact ⟨Nat.lt_succ_of_lt hex.2, hex.1⟩
+          rw [hb] at this; cases this
+        have hatt := hiff.mpr ⟨hno, hnex⟩
+        refine ⟨⟨hk.handle, a, hk.pooled⟩, (hmem _).mpr ⟨h, hk, hkk, callOf_of h1 hatt hb⟩, ?_⟩
+        exact hnli.handle h hk hkk
+
+end events
+
+/-! ## `LinkTo` -/
+section link
+open Hive.Events
+
+/-- Number of attached link hooks of event `src` in the registry of event `t` — the number of times
+one `Trigger` of `t` (that passes `t`'s limit) calls `src.Trigger`. -/
+def linkHooksOn (s : St) (t src : Nat) : Nat :=
+  s.hooks.countP (fun h => h.attached && h.ev == t && h.link == some src)
+
+/-- The event `src` is currently linked to. -/
+def currentTarget (s : St) (src : Nat) : Option Nat :=
+  match s.evs[src]? with
+  | none => none
+  | some ev =>
+    match ev.link with
+    | none => none
+    | some k => (s.hooks[k]?).map (·.ev)
+
+theorem countP_index {α : Type} (p : α → Bool) (l : List α) (k : Nat)
+    (h : ∀ (j : Nat) (x : α), l[j]? = some x → p x = true → j = k) :
+    l.countP p = match l[k]? with
+      | some x => if p x then 1 else 0
+      | none => 0 := by
+  induction l generalizing k with
+  | nil => simp
+  | cons a l ih =>
+    rw [List.countP_cons]
+    cases k with
+    | zero =>
+      have hz : l.countP p = 0 := by
+        rw [List.countP_eq_zero]
+        intro x hx
+        obtain ⟨j, hj⟩ := List.mem_iff_getElem?.mp hx
+        intro hp
+        have := h (j + 1) x (by simpa using hj) hp
+        omega
+      simp [hz]
+    | succ k =>
+      have hpa : p a = false := by
+        cases hp : p a with
+        | false => rfl
+        | true => have := h 0 a (by simp) hp; omega
+      have := ih k (fun j x hj hp => by have := h (j + 1) x (by simpa using hj) hp; omega)
+      simp [hpa, this]
+
+/-- **C15, LinkTo (all histories of New/Hook/Unhook/Trigger/LinkTo with any limits).**  After any
+history, the registry of event `t` contains exactly one attached link hook of `src` if `t` is the
+event `src` is currently linked to, and none otherwise — so `src` fires exactly once per trigger of
+its current target and no longer for a former target. -/
+theorem C15_link (ops : List Op) (src t : Nat) :
+    linkHooksOn (final init ops) t src = if currentTarget (final init ops) src = some t then 1 else 0 := by
+  have hinv := linkInv_final ops
+  generalize final init ops = s at hinv
+  unfold linkHooksOn
+  have hp : ∀ (j : Nat) (x : Hook), s.hooks[j]? = some x →
+      (x.attached && x.ev == t && x.link == some src) = true →
+      ∃ ev, s.evs[src]? = some ev ∧ ev.link = some j := by
+    intro j x hj hpx
+    simp only [Bool.and_eq_true, beq_iff_eq] at hpx
+    exact hinv.only j x src hj hpx.2 hpx.1.1
+  cases he : s.evs[src]? with
+  | none =>
+    have hct : currentTarget s src = none := by simp [currentTarget, he]
+    rw [hct, List.countP_eq_zero.mpr]
+    · simp
+    · intro x hx hpx
+      obtain ⟨j, hj⟩ := List.mem_iff_getElem?.mp hx
+      obtain ⟨ev, hev, _⟩ := hp j x hj hpx
+      rw [he] at hev; cases hev
+  | some ev =>
+    cases hl : ev.link with
+    | none =>
+      have hct : currentTarget s src = none := by simp [currentTarget, he, hl]
+      rw [hct, List.countP_eq_zero.mpr]
+      · simp
+      · intro x hx hpx
+        obtain ⟨j, hj⟩ := List.mem_iff_getElem?.mp hx
+        obtain ⟨ev', hev', hl'⟩ := hp j x hj hpx
+        rw [he] at hev'; cases hev'; rw [hl] at hl'; cases hl'
+    | some k =>
+      obtain ⟨hk, hhk, hkl, hka, _⟩ := hinv.cur src ev k he hl
+      have hct : currentTarget s src = some hk.ev := by simp [currentTarget, he, hl, hhk]
+      rw [hct, countP_index _ s.hooks k (fun j x hj hpx => by
+        obtain ⟨ev', hev', hl'⟩ := hp j x hj hpx
+        rw [he] at hev'; cases hev'; rw [hl] at hl'; cases hl'; rfl)]
+      simp only [hhk, Option.some.injEq, hka, hkl, Bool.true_and, beq_self_eq_true, Bool.and_true, beq_iff_eq]
+
+/-- Non-vacuity: re-linking moves the single link hook; the former target keeps none. -/
+example :
+    let s := final init [.new 0, .new 0, .new 0, .link 2 0, .link 2 1, .link 2 1]
+    linkHooksOn s 0 2 = 0 ∧ linkHooksOn s 1 2 = 1 ∧ currentTarget s 2 = some 1 := by
+  decide
+
+end link
 
 /-! ## value notifier -/
 section notifier
